@@ -17,6 +17,7 @@ pub fn families_for(prop: &str) -> Vec<Family> {
         v.push(Family { name: "c01_clock", cfg: c05_cfg, run: c05_run });
         v.push(Family { name: "c01_hold", cfg: c01_hold_cfg, run: c08_manual_run });
         v.push(Family { name: "c01_holdr", cfg: c01_hold_cfg, run: c08_rand_run });
+        v.push(Family { name: "c01_gcrash", cfg: c01_gcrash_cfg, run: c01_gcrash_run });
         return v;
     }
     match prop {
@@ -1926,6 +1927,63 @@ fn c01_tcp_cfg(rng: &mut Rng) -> CaseCfg { let c = c02_cfg(rng); knobs(c, rng) }
 fn c01_conn_cfg(rng: &mut Rng) -> CaseCfg { let c = c12_cfg(rng); knobs(c, rng) }
 
 fn c01_hold_cfg(rng: &mut Rng) -> CaseCfg { let c = c08_cfg(rng); knobs(c, rng) }
+
+fn c01_gcrash_cfg(rng: &mut Rng) -> CaseCfg {
+    CaseCfg {
+        tick_ms: 1,
+        hosts: 4,
+        minlat_ms: 1,
+        maxlat_ms: 1 + *rng.pick(&[5u64, 20]),
+        rng_seed: rng.next(),
+        // (registration by name: the regex selector needs names)
+        ..CaseCfg::default()
+    }
+}
+
+/// A host-set call (regex selector) that tears down several hosts with live connections at once: every FIN / RST sent
+/// by the destructors draws its latency from the world's generator, so the order in which the selected hosts are
+/// visited is visible in the delivery times — it must be the same in every execution.
+fn c01_gcrash_run(case: &mut Case, rng: &mut Rng) {
+    let lat = case.cfg.maxlat_ms;
+    case.ctl("q h0 tcp_bind s0 any:80");
+    case.ctl("step");
+    for h in 1..4 {
+        case.ctl(&format!("q h{h} tcp_connect s1 h0:80"));
+    }
+    for _ in 0..lat + 2 {
+        case.ctl("step");
+    }
+    for k in 0..3 {
+        case.ctl(&format!("q h0 tcp_accept s0 s{}", 1 + k));
+        case.ctl("step");
+    }
+    for _ in 0..lat + 2 {
+        case.ctl("step");
+    }
+    for h in 1..4 {
+        case.ctl(&format!("q h{h} tcp_cpoll s1"));
+    }
+    case.ctl("step");
+    for h in 1..4 {
+        case.ctl(&format!("q h{h} tcp_write s1 {}", hex(&[0x50 + h as u8, 0x51])));
+    }
+    case.ctl("step");
+    match rng.below(4) {
+        0 => case.ctl("crash_set h1,h2"),
+        1 => case.ctl("crash_set h2,h3"),
+        _ => case.ctl("crash_set h1,h2,h3"),
+    }
+    for _ in 0..lat + 3 {
+        for k in 0..3 {
+            case.ctl(&format!("q h0 tcp_read s{} 4", 1 + k));
+        }
+        case.ctl("step");
+    }
+    if rng.chance(1, 2) {
+        case.ctl("bounce_set h1,h2,h3");
+        case.ctl("step");
+    }
+}
 
 fn c01_fs_cfg(rng: &mut Rng) -> CaseCfg {
     let c = CaseCfg { hosts: rng.range(1, 3) as usize, rng_seed: rng.next(), tick_ms: *rng.pick(&[1u64, 2, 5]), ..CaseCfg::default() };
